@@ -34,6 +34,9 @@ STATUS_MENU = ["200ka", "200close", "short", "body-reset", "body-timeout", "body
                # a response http.client treats as will_close (it detaches the socket from the connection object
                # and leaves it to the response) whose body then stalls / is reset before its end
                "close-body-timeout", "close-body-reset",
+               # a receive-side OSError that is neither a ConnectionError nor a timeout (EHOSTUNREACH: route lost),
+               # before the status line and in the middle of the body
+               "unreach", "body-unreach",
                # a retryable status that asks the client to wait: the wait itself is an environment step
                "503ra"]
 SLEEP_MENU = ["ok", "intr"]
@@ -141,6 +144,10 @@ class C01Server(Server):
             return [STALL]
         if a == "reset":
             return [ConnectionResetError(errno.ECONNRESET, "reset")]
+        if a == "unreach":
+            return [OSError(errno.EHOSTUNREACH, "unreachable")]
+        if a == "body-unreach":
+            return [b"HTTP/1.1 200 OK\r\nContent-Length: 15\r\n\r\n" + BODY, OSError(errno.EHOSTUNREACH, "unreachable")]
         if a == "eof":
             return [EOF]
         if a == "garbage":
@@ -163,6 +170,10 @@ def mk_retries(name):
         return 1
     if name == "R2":
         return Retry(2, allowed_methods=None, status_forcelist=[503], redirect=2)
+    if name == "S0":
+        # the status budget is smaller than the total: the first retried status already exhausts it (MaxRetryError
+        # raised from the status-retry tail while the response that exhausted it is still attached to its connection)
+        return Retry(3, status=0, allowed_methods=None, status_forcelist=[503])
     raise KeyError(name)
 
 
@@ -395,8 +406,10 @@ def configs(thorough):
     for kind in ("http", "fwd", "tunnel", "https"):
         for maxsize in (1, 2):
             for block in (False, True):
-                for retries in (("False", "0", "1", "R2") if thorough else ("False", "1", "R2")):
+                for retries in (("False", "0", "1", "R2", "S0") if thorough else ("False", "1", "R2", "S0")):
                     for preload, release in modes:
+                        if retries == "S0" and not thorough and (kind not in ("http", "tunnel") or maxsize != 1):
+                            continue
                         out.append(dict(kind=kind, maxsize=maxsize, block=block, retries=retries, preload=preload, release=release,
                                         more_ops=bool(thorough)))
     return out
@@ -492,7 +505,7 @@ def run(ctx):
                 tasks.append((c, dev, depth, cap, label))
     def weight(t):
         c, dev, depth = t[0], t[1], t[2]
-        return (depth ** 2) * (1 + dev) * {"False": 1, "0": 1, "1": 2, "R2": 4}[c["retries"]] * (1 if c["preload"] else 2) * c["maxsize"]
+        return (depth ** 2) * (1 + dev) * {"False": 1, "0": 1, "1": 2, "R2": 4, "S0": 3}[c["retries"]] * (1 if c["preload"] else 2) * c["maxsize"]
     acc = ctx.gather(explore_config, tasks, weight=weight)
     states = acc.counters["states"]
     answers = {k for k in acc.counters if k.startswith("answer:")}
